@@ -2318,8 +2318,11 @@ class Recipe:
                     solvent = self.results[solvent_name]
                 results = Container.create_solution(solute, solvent, dest_name, **kwargs)
                 if isinstance(solvent, Container):
+                    # the solvent container is a source of this step
                     self.used.add(solvent_name)
+                    step.objects_used.add(solvent_name)
                     self.results[solvent_name], self.results[dest_name] = results
+                    step.frm = [solvent, self.results[solvent_name]]
                 else:
                     self.results[dest_name] = results
                 step.substances_used = self.results[dest_name].get_substances()
